@@ -256,9 +256,17 @@ def layout(draw, spec, sub_manifests=True, duplicates=True, ignores=True,
 
     if dist and draw(st.integers(0, 3)) == 0:
         mi = draw(st.integers(0, len(manifests) - 1))
+        dname = draw(st.sampled_from(['foo-1.tar.gz', 'a', 'x y.zip']))
+        # a distfile may well be called like a local file listed next to it
+        local = sorted({rel(e['path'], manifests[mi]['dir'])
+                        for e in manifests[mi]['entries']
+                        if e['tag'] in ('DATA', 'MISC', 'EBUILD')})
+        local = [n for n in local if '/' not in n]
+        if local and draw(st.booleans()):
+            dname = draw(st.sampled_from(local))
+            tags.append('dist-named-like-local-file')
         manifests[mi]['entries'].append(
-            {'tag': 'DIST', 'path': draw(st.sampled_from(
-                ['foo-1.tar.gz', 'a', 'x y.zip'])), 'size': 12,
+            {'tag': 'DIST', 'path': dname, 'size': 12,
              'ck': {'SHA512': 'ab' * 64}})
         tags.append('dist')
     if timestamp and draw(st.integers(0, 3)) == 0:
